@@ -7,3 +7,5 @@ for id in $(python3 -c "import json;print(' '.join(c['property_id'] for c in jso
   echo "$id rc=$rc $(echo "$out" | grep -E '^\[check\] C' | tail -1 | cut -c1-160)"
   echo "$out" | grep -E "^(VIOLATION|BROKEN)" | head -3
 done
+# every evidence file just written must be a valid, small record
+$(command -v python3-vt || echo python3) tools/validate_evidence.py | grep -v " ok " ; true
